@@ -82,6 +82,14 @@ func propC03(g *G, n int) {
 		x, y := g.finitePair()
 		if g.chance(0.1) {
 			x, y = g.pair()
+		} else if g.chance(0.12) {
+			// integer quotients around the largest finite Decimal: exponent gap 6111..6215 (the quotient is finite, rounded or
+			// infinite depending on both coefficients), coefficients from the structured pool (1, 10^k, Cmax, 2^110, ...)
+			gap := 6111 + g.pick(105)
+			ey := g.pick(12288 - gap)
+			xlo, xhi := encodeDec(g.chance(0.5), g.coef(), ey+gap)
+			ylo, yhi := encodeDec(g.chance(0.5), g.coef(), ey)
+			x, y = dec{xlo, xhi}, dec{ylo, yhi}
 		}
 		m := sU64(uint64(g.mode()))
 		emit(g.drm(), "Decimal.QuoRemWithMode", []string{x.String(), y.String(), m})
